@@ -1869,7 +1869,11 @@ impl<T: PPGEvaluatorStrategy> PPGEvaluator<T> {
                                     "No history for {}, but found {} to use instead",
                                     upstream_id, x
                                 );
-                                history.get(&x).map(Cow::from)
+                                // what this downstream has seen of it, not what the old job
+                                // produced last
+                                history
+                                    .get(&format!("{}!!!{}", x, downstream_id))
+                                    .map(Cow::from)
                             }
                             None => None,
                         }
